@@ -163,7 +163,8 @@ Definition expected_sites : bool :=
   has "src/boolean_result.cpp" "StableSortRuns" 3 &&    (* edgesP, edgesQ, edgesNew *)
   has "src/boolean_result.cpp" "CanonicalRotation" 2 && (* AtomicAdd(facePtr) x2 *)
   has "src/csg_tree.cpp" "HeapTotalOrder" 1 &&
-  has "src/parallel.h" "StableMergeBounds" 1.           (* the parallel merge keeps ties in input order *)
+  has "src/parallel.h" "StableMergeBounds" 1 &&
+  has "src/sort.cpp" "SequentialPolicy" 1.              (* MeshGL::Merge: union-find roots written to mergeToVert, unite order fixed *)           (* the parallel merge keeps ties in input order *)
 
 Lemma gen_all_combines_normalised : sites_ok sites = true /\ expected_sites = true.
 Proof. split; vm_compute; reflexivity. Qed.
